@@ -19,7 +19,7 @@ Extraction "model.ml"
   run_async yields pendings
   crun cstate0 alg_ok
   run_finalize_segs run_finalize_segs_from fin_ok fspec0 fspec1 rrun
-  run_iter_case run_stream_case run_interval_case
+  run_iter_case run_iter_case_pre run_stream_case run_interval_case
   Pipe.exec idiom_log
   run_share
   next_prog subscribe_prog unsubscribe_prog complete_prog probe_cell shared_tail acquisitions
